@@ -5,7 +5,7 @@
  * Runs on the ASan build: ownership (double free / use after free / leak) is part of the property. */
 #include "../fw/explore.h"
 #include "../fw/hx.h"
-#include "/repo/include/bidib.h"
+#include "include/bidib.h"
 #include <stdio.h>
 #include <stdlib.h>
 #include <string.h>
